@@ -226,7 +226,10 @@ Definition same_racks (ns ns' : list node) : Prop := forall x, node_rack ns' x =
 Definition spread_item (i : item) : Prop :=
   match i with
   | IMove _ m => (m_kind m = KAcross -> m_dst_rack_count m <= m_limit m) /\
-                 (m_kind m <> KAcross -> m_src_rack m = m_dst_rack m)
+                 (m_kind m <> KAcross -> m_src_rack m = m_dst_rack m) /\
+                 (* every guard tests freeEcSlot of the destination on the books of that moment;
+                    needs neither uniqueness nor absence of drops *)
+                 0 < m_dst_free m
   | _ => True
   end.
 Definition spread_ok (its : list item) : Prop := Forall spread_item its.
@@ -312,7 +315,7 @@ Proof.
       * match type of H with context [across_moves c v avg ?S ?R picked' ms] =>
           destruct (across_moves c v avg S R picked' ms) as [[st1 its1]|] eqn:R1; [|discriminate] end.
         inv H.
-        destruct (valid_dest_some _ _ _ _ _ _ V) as [Hin _].
+        destruct (valid_dest_some _ _ _ _ _ _ V) as [Hin [_ [Hfree _]]].
         pose proof (rack_node_ids_rack _ _ _ (proj1 Hwf) Hin) as Hr.
         assert (Hsi1 : SI (move_shard (nodes st) src v c s dst)
                           (aadd (aadd rsc r 1) (node_rack (nodes st) src) (-1)) picked' v).
@@ -322,7 +325,7 @@ Proof.
           destruct (N.eqb r r0), (N.eqb (node_rack (nodes st) src) r0); lia. }
         apply IH in R1; simpl; auto; [|apply wf_move; auto].
         simpl in R1. destruct R1 as [A [B C]]. split; auto. split.
-        -- constructor; auto. simpl. split; [|intros X; congruence].
+        -- constructor; auto. simpl. split; [|split; [intros X; congruence|exact Hfree]].
            intros _. rewrite Hr, rack_vid_count_rsum.
            specialize (Hsi1 r). rewrite !alookup_aadd in Hsi1. rewrite N.eqb_refl in Hsi1.
            pose proof (pend_nonneg picked' (move_shard (nodes st) src v c s dst) r).
@@ -384,12 +387,12 @@ Proof.
     destruct d as [dst|].
     + destruct (within_shards c v avgn nracks (move_shard ns src v c s dst) src dests ss (over - 1) ch1)
         as [[[ns2 its2] ch2]|] eqn:R; [|discriminate]. inv H.
-      destruct (valid_dest_some _ _ _ _ _ _ V) as [Hin _].
+      destruct (valid_dest_some _ _ _ _ _ _ V) as [Hin [_ [Hfree _]]].
       apply IH with (r := node_rack ns src) in R.
       * match goal with |- sp _ _ (?a :: ?b :: its2) => change (a :: b :: its2) with ([a; b] ++ its2) end.
         eapply sp_trans; [|exact R]. split; [apply wf_move; auto|]. split; [|apply same_racks_move].
         constructor; [simpl; auto|]. constructor; [|constructor]. simpl. split; [intros X; discriminate|].
-        intros _. rewrite (Hd _ Hin). reflexivity.
+        split; [|exact Hfree]. intros _. rewrite (Hd _ Hin). reflexivity.
       * apply wf_move; auto.
       * apply node_rack_move.
       * intros x Hx. rewrite node_rack_move. apply Hd. exact Hx.
@@ -454,7 +457,8 @@ Proof.
   destruct (valid_ends_spec _ _ _ _ V) as [He [Hf Hne]].
   assert (Stop : match rest with [] => Some (ns, []) | _ :: _ => None end = Some (ns', its) -> sp ns ns' its).
   { intros X. destruct rest; [|discriminate]. inv X. apply sp_refl; auto. }
-  destruct ((alookup cnts f >? avg) && (alookup cnts e + 1 <=? avg) && (0 <? node_free ns e)); [|auto].
+  destruct ((alookup cnts f >? avg) && (alookup cnts e + 1 <=? avg) && (0 <? node_free ns e)) eqn:Cond; [|auto].
+  apply andb_true_iff in Cond. destruct Cond as [_ Hfree]. apply Z.ltb_lt in Hfree.
   destruct (first_foreign (node_entries ns f) (map e_vid (node_entries ns e))) as [en|] eqn:FF; [|auto].
   destruct (shard_ids (e_bits en)) as [|s ss] eqn:S; [auto|].
   match type of H with context [rack_loop nracks ?a ids ?b avg rest] =>
@@ -463,7 +467,7 @@ Proof.
   apply IH with (r := r) in R.
   - match goal with |- sp _ _ (?i :: its2) => change (i :: its2) with ([i] ++ its2) end.
     eapply sp_trans; [|exact R]. split; [apply wf_move; auto|]. split; [|apply same_racks_move].
-    constructor; [|constructor]. simpl. split; [intros X; discriminate|]. intros _.
+    constructor; [|constructor]. simpl. split; [intros X; discriminate|]. split; [|exact Hfree]. intros _.
     rewrite (Hr _ He), (Hr _ Hf). reflexivity.
   - apply wf_move; auto.
   - intros x Hx. rewrite node_rack_move. apply Hr. exact Hx.
